@@ -429,3 +429,11 @@ mod tests {
         assert!(!store.is_poisoned());
     }
 }
+
+#[cfg(feature = "verif-hooks")]
+pub(crate) mod verif_hooks {
+    pub use super::meta::Meta;
+    pub const MAGIC: [u8; 4] = super::meta::MAGIC;
+    pub const VERSION: u32 = super::meta::VERSION;
+    pub const META_SIZE: usize = super::meta::META_SIZE;
+}
